@@ -2,6 +2,7 @@
 import ast
 
 from ..srcmodel import AnalysisError, enclosing_class
+from ..stages import estimates
 from ..algebra import Poly
 from ..ndarr import Arr, InterpRaise
 from ..absint import Obj, ClassRef
@@ -86,7 +87,7 @@ def args_scenarios():
             gen = P.sym_generator('Min', num_extrap=1)
             obj, x = P.build('Derivative', method, 2, n=n, step=gen, full_output=full_output)
             I = P.interp
-            I.getattr(obj, '_derivative')(x, (Poly.sym('a1'),), {'b': Poly.sym('b1')})
+            estimates(I, obj, x, (Poly.sym('a1'),), {'b': Poly.sym('b1')})
             return obj, x
 
         def fresh(P):
@@ -137,7 +138,7 @@ def effects(ctx):
             I.on_dict_store = lambda d, k, v: written.append(('module finite_difference', 'FD_RULES') if d is cache
                                                               else ('dict', repr(k)[:40]))
             try:
-                I.getattr(obj, '_derivative')(x, (), {})
+                estimates(I, obj, x)
             except InterpRaise as exc:
                 rep.violation('R-EFFECTS', 'core.%s._derivative' % cls, core.relpath,
                               {'raises': exc.exc_name, 'message': exc.msg[:100]}, 'a valid call does not raise',
@@ -305,7 +306,7 @@ def shared_state(ctx):
                 written = {}
                 I.on_setattr = lambda o, a, v: written.setdefault(id(o), (o, set()))[1].add(a) if isinstance(o, Obj) else None
                 try:
-                    I.getattr(o1, '_derivative')(x1, (), {})
+                    estimates(I, o1, x1)
                 finally:
                     I.on_setattr = None
                 reach2 = reachable_objects(o2)
